@@ -274,6 +274,13 @@ class Run:
             raise InfraError('audit could not find theorems: ' + ', '.join(a['missing'][:5]) + a['raw'][-1500:])
         if a['bad']:
             raise InfraError('theorems with non-standard axioms: ' + json.dumps(a['bad']))
+        if self.tier == 'thorough':
+            # the compiled modules are re-checked by the toolchain's independent checker
+            with lake_lock():
+                p = subprocess.run(['lake', 'env', 'leanchecker', *modules], cwd=LEAN, capture_output=True, text=True, timeout=3600)
+            self.extra['leanchecker'] = {'modules': list(modules), 'exit': p.returncode}
+            if p.returncode != 0:
+                raise InfraError('leanchecker rejects the compiled modules: ' + (p.stdout + p.stderr)[-1500:])
         return True, failing
 
     # -- verdict -------------------------------------------------------------------------------
